@@ -975,7 +975,11 @@ def readGraph(input_file,
         # networkx seems to mismanage that and to cause a TypeError
         #
         try:
-            G = networkx.nx_pydot.read_dot(input_file)
+            # pydot prints its parse diagnostics on the standard
+            # output, where the formula is supposed to go
+            import contextlib
+            with contextlib.redirect_stdout(io.StringIO()):
+                G = networkx.nx_pydot.read_dot(input_file)
             try:
                 # work around for a weird parse error in pydot, which
                 # adds an additiona vertex '\\n' in the graph.
